@@ -184,11 +184,15 @@ def ev(e, env):
         return None if any(v is None for v in vals) else False
     if k == "xor":
         vals = [ev(x, env) for x in e[1]]
+        trues = [strip_nn(x) for x, v in zip(e[1], vals) if v is True]
+        if len(trues) > 1 and len(set(map(repr, trues))) < len(trues):
+            # 'a ^ a': exactly-one over a repeated argument is read differently by different people (set vs multiset): not judged
+            raise Unknown("xor with a repeated true argument")
         if any(v is None for v in vals):
-            if sum(1 for v in vals if v is True) > 1:
+            if len(trues) > 1:
                 return False
             return None
-        return sum(1 for v in vals if v) == 1
+        return len(trues) == 1
     if k == "imp":
         a, b = ev(e[1], env), ev(e[2], env)
         if a is False or b is True:
@@ -197,6 +201,12 @@ def ev(e, env):
             return None
         return False
     raise KeyError(k)
+
+
+def strip_nn(e):
+    while e[0] == "not" and e[1][0] == "not":
+        e = e[1][1]
+    return e
 
 
 # ---- z3 translation ------------------------------------------------------------------------------
@@ -222,7 +232,11 @@ def to_z3(e, zenv, z3):
         return r
     if k in ("lt", "leq", "geq", "gt", "eq", "neq"):
         a, b = to_z3(e[1], zenv, z3), to_z3(e[2], zenv, z3)
-        return {"lt": a < b, "leq": a <= b, "geq": a >= b, "gt": a > b, "eq": a == b, "neq": a != b}[k]
+        if k == "eq":
+            return a == b
+        if k == "neq":
+            return a != b
+        return {"lt": lambda: a < b, "leq": lambda: a <= b, "geq": lambda: a >= b, "gt": lambda: a > b}[k]()
     if k == "and":
         return z3.And([to_z3(x, zenv, z3) for x in e[1]])
     if k == "or":
@@ -318,7 +332,12 @@ class ExprGen:
         if c < 0.5:
             return ("or", [self.boolean(depth - 1) for _ in range(r.randint(2, 3))])
         if c < 0.6:
-            return ("xor", [self.boolean(depth - 1) for _ in range(r.randint(2, 3))])
+            args = []
+            for _ in range(r.randint(2, 3)):
+                a = self.boolean(depth - 1)
+                if repr(strip_nn(a)) not in [repr(strip_nn(x)) for x in args]:
+                    args.append(a)
+            return ("xor", args) if len(args) > 1 else args[0]
         if c < 0.72:
             return ("imp", self.boolean(depth - 1), self.boolean(depth - 1))
         if c < 0.85:
